@@ -41,9 +41,11 @@ PROGRAMS = {
     'r4': P(1, {'r': [CLEAR], 'p1': [A(11), A(12)], 'c1': [REM, REM], 's': [SIZE, SIZE]}, {'p1': ['r'], 'c1': ['r'], 's': ['r']}),
     'r5': P(2, {'p0': [A(5), A(6)], 'r': [CLEAR], 'p1': [A(11), A(12), A(13)], 'c1': [REM, REM, REM], 's': [SIZE, ARRAY]},
             {'r': ['p0'], 'p1': ['r'], 'c1': ['r'], 's': ['r']}),
+    # a queue used for a second round: closed, emptied by RemoveAll (which the code re-opens), filled and closed again
+    'r6': P(1, {'m': [A(11), CLOSE, CLEAR, A(12), CLOSE], 'c1': [REM, REM], 'c2': [REM]}, {'c1': ['m'], 'c2': ['m']}),
 }
-QUICK = ['w1', 'w2', 'w3', 'b1', 'r1', 'r2', 'r3', 'r4', 'r5']
-THOROUGH = ['w1', 'w2', 'w3', 'w4', 'w5', 'w6', 'b1', 'b2', 'r1', 'r2', 'r3', 'r4', 'r5']
+QUICK = ['w1', 'w2', 'w3', 'b1', 'r1', 'r2', 'r3', 'r4', 'r5', 'r6']
+THOROUGH = ['w1', 'w2', 'w3', 'w4', 'w5', 'w6', 'b1', 'b2', 'r1', 'r2', 'r3', 'r4', 'r5', 'r6']
 
 
 def run_programs(ctx, names, max_schedules):
